@@ -16,7 +16,7 @@ RESP = 'smbus_response::MCTPSMBusContextResponse'
 CTX = "smbus::MCTPSMBusContext::<'_>"
 TRAIT = 'mctp_traits::SMBusMCTPRequestResponse'
 
-ENGINE_VERSION = '8'
+ENGINE_VERSION = '9'
 
 
 def vendor_format_domain(name):
@@ -85,6 +85,9 @@ class Analysis:
                     ent['process_packet'] = dict(key=key, assume=valid_config, hook=vendor_format_domain)
                 else:
                     ent['ctx.' + fn] = dict(key=key)
+            m = re.match(r'^(\w+)::(\w+)::<\[u8; (\d+)\]>::(\w+)$', key)
+            if m and inst['crate'] == P.meta['crate']:
+                ent['view.%s.%s' % (m.group(2), m.group(4))] = dict(key=key)
             if path.startswith('<') and ' as core::convert::From<u8>>::from' in key:
                 m = re.match(r'^<([\w:]+) as core::convert::From<u8>>::from$', key)
                 if m:
